@@ -43,6 +43,14 @@ func tAnd(args ...Term) Term {
 		if a == tFalse {
 			return tFalse
 		}
+		if strings.HasPrefix(a, "(and ") {
+			if n := parseSx(a); n != nil && n.head() == "and" {
+				for _, k := range n.kids[1:] {
+					out = append(out, k.String())
+				}
+				continue
+			}
+		}
 		out = append(out, a)
 	}
 	switch len(out) {
